@@ -425,6 +425,7 @@ func runC06(c *Ctx) {
 	c.Rule("R6", "DEP", "pipeline capability = fan-out consumer's ∨ every processor's MutatesData; connector aggregate = own ∨ every next consumer's; exporter helper declares MutatesData when either batching configuration is enabled", 4)
 	runC06Caps(c)
 	runC06SingleConsumer(c)
+	runRouterReadOnly(c, "R11")
 }
 
 func isLenOfField(v ssa.Value, T *types.Named, field string) bool {
